@@ -1,4 +1,4 @@
-import FluteModel.Lemmas.SessionStream
+import FluteModel.Lemmas.SessionLife
 import FluteModel.Lemmas.SessionCodec
 /-
   C16 — carousel late join: a receiver that starts listening at any packet boundary delivers every
@@ -98,6 +98,31 @@ theorem late_join_two_cycles_stream (cF cO : Codec) (rc : RxCfg) (s : SessCfg) (
   · rw [osyms_append]
     intro h
     exact hsome (List.append_eq_nil_iff.mp h).2
+
+/-- **C16, session level: sender model ∘ suffix ∘ receiver model.**  The carouselled object's packets in
+    the stream all belong to the transfer listing `tr` its block encoder emits when `is_last_transfer`
+    is false (`hsrc`); by `emitTransfer_facts` they are genuine and none carries the close-object flag -
+    for ANY block sizes, parity, window, scheme with encodable blocks.  Everything else as in
+    `late_join_two_cycles_stream`: ANY join offset `j`. -/
+theorem late_join_two_cycles_session (cF cO : Codec) (rc : RxCfg) (s : SessCfg) (o : ObjCfg)
+    (hto : o.toi ≠ 0) (hN : o.ks.isEmpty = false) (hfit : Fits rc o) (hw : 1 ≤ s.w)
+    (hblocks : ∀ (b k : Nat), o.ks[b]? = some k → 1 ≤ k ∧ blockFails o.scheme k o.p = false)
+    (tr : List Sym) (h1 : emitTransfer (objEnc s o false) = some tr)
+    (hall : ∀ f, f ∈ s.fdts → f.files.contains o.toi = true)
+    (f : FdtCfg) (hfind : s.fdts.find? (fun x => x.id == f.id) = some f)
+    (hfN : f.ks.isEmpty = false) (hflook : f.ks.size ≤ rc.maxLook)
+    (hfresh : blockDone cF.canDecode f.ks s.fdtP [] 0 = false)
+    (stream : List Pkt) (j n : Nat) (ps1 ps2 : List Pkt)
+    (hjoin : (stream.drop j).take n = ps1 ++ ps2)
+    (hgenF : ∀ p, p ∈ stream → p.toi = 0 → p.fdtId = f.id → Genuine (fdtObj s f) (toSym p) ∧ p.close = false)
+    (hsrc : ∀ q, q ∈ osyms o stream → q ∈ tr)
+    (hwhole : AllDec cF (fdtObj s f) (fsyms f.id ps1))
+    (hcycle : AllDec cO o (osyms o ps2))
+    (hsome : osyms o ps2 ≠ []) :
+    1 ≤ (observe cF.canDecode cO.canDecode rc s o ((stream.drop j).take n)).completes := by
+  obtain ⟨a1, _, _, _, a5⟩ := emitTransfer_facts _ (encOK_obj s o false hw hN hblocks) tr h1
+  exact late_join_two_cycles_stream cF cO rc s o hto hN hfit hall f hfind hfN hflook hfresh stream j n ps1 ps2 hjoin hgenF
+    (fun q hq => a1 q (hsrc q hq)) (fun q hq => a5 rfl q (hsrc q hq)) hwhole hcycle hsome
 
 /-! ### finding D14: the empty object -/
 
